@@ -43,6 +43,11 @@ THEOREMS = [
     "SleapVerif.C18.frameworks_agree_any_scale",
     "SleapVerif.C18.np_stream_pixels_equal",
     "SleapVerif.C18.sample_count_agree",
+    "SleapVerif.C18.filterFrame_idem",
+    "SleapVerif.C18.frameworks_enumerate_same_instances",
+    "SleapVerif.C18.sampleOfRaw_eq",
+    "SleapVerif.C18.np_chunks_rewrite_independent_of_directory_state",
+    "SleapVerif.C18.np_chunks_existing_serves_directory",
     "SleapVerif.C18.targets_from_same_points",
     "SleapVerif.C18.targets_agree_scale1",
     "SleapVerif.C18.targets_agree_any_scale",
@@ -73,6 +78,7 @@ FWS = ["mem", "np", "stream"]
 ASSET = "tests/assets/minimal_instance.pkg.slp"
 
 E = {}  # lazily filled environment (torch, repo symbols)
+LAST_CASE = {}
 
 
 # ------------------------------------------------------------------ environment
@@ -146,6 +152,31 @@ def make_image(rng_seed, h, w, c):
     return np.clip(img, 0, 255).astype(np.uint8)
 
 
+def ipts(inst):
+    """Keypoints of a spec instance: a plain list is a user instance, {"pred": true, "pts": […]} a predicted one."""
+    return inst["pts"] if isinstance(inst, dict) else inst
+
+
+def ipred(inst):
+    return isinstance(inst, dict) and bool(inst.get("pred"))
+
+
+def enum_insts(fr, uio):
+    """Index bookkeeping only: the keypoint lists a framework is expected to enumerate for a frame
+    (user instances when `user_instances_only` and there is one, else all)."""
+    users = [i for i in fr["insts"] if not ipred(i)]
+    return [ipts(i) for i in (users if (uio and users) else fr["insts"])]
+
+
+def labelled_line(fr):
+    toks = [str(len(fr["insts"]))]
+    for inst in fr["insts"]:
+        pts = ipts(inst)
+        toks += ["1" if ipred(inst) else "0", str(len(pts))]
+        toks += ["nan nan" if p is None else f"{rat(float(p[0]))} {rat(float(p[1]))}" for p in pts]
+    return " ".join(toks)
+
+
 def build_labels(spec):
     """Fresh in-memory `sio.Labels` for a spec (every framework gets its own copy: `process_lf`
     re-assigns `lf.instances` and `generate_centroids` may write through)."""
@@ -161,9 +192,12 @@ def build_labels(spec):
     lfs = []
     for fr in spec["frames"]:
         insts = []
-        for pts in fr["insts"]:
-            arr = np.array([[np.nan, np.nan] if p is None else [p[0], p[1]] for p in pts], dtype=float)
-            insts.append(sio.Instance.from_numpy(arr, skeleton=skel))
+        for inst in fr["insts"]:
+            arr = np.array([[np.nan, np.nan] if p is None else [p[0], p[1]] for p in ipts(inst)], dtype=float)
+            if ipred(inst):
+                insts.append(sio.PredictedInstance.from_numpy(arr, skel, point_scores=np.ones(len(arr)), score=0.9))
+            else:
+                insts.append(sio.Instance.from_numpy(arr, skeleton=skel))
         lfs.append(sio.LabeledFrame(video=vids[fr["video"]], frame_idx=fr["t"], instances=insts))
     return sio.Labels(labeled_frames=lfs, videos=vids, skeletons=[skel])
 
@@ -190,7 +224,7 @@ def stubbed_litdata(items):
 
 def data_config(cfg):
     mh, mw = cfg["cfg_max"] if cfg["cfg_max"] else (None, None)   # each component may be None on its own
-    return E["DictConfig"]({"user_instances_only": True,
+    return E["DictConfig"]({"user_instances_only": bool(cfg.get("uio", True)),
                             "preprocessing": {"is_rgb": cfg["is_rgb"], "max_height": mh, "max_width": mw,
                                               "scale": cfg["scale"], "crop_hw": list(cfg["crop"])},
                             "use_augmentations_train": False})
@@ -208,11 +242,12 @@ def read_history(ds, n):
     return [(i, copy.deepcopy(ds[i])) for i in history_order(n)]
 
 
-def run_frameworks(spec, cfg, tmp):
+def run_frameworks(spec, cfg, tmp, np_dir=None, np_existing=False):
     """→ {fw: read history [(index, sample)…]}, glue values (max_hw, max_instances), and per framework the
     number of samples each labelled frame gave (`"raise:<Class>"` where the chunk function raised)."""
     cd, gc, sd, prov, DC = E["cd"], E["gc"], E["sd"], E["prov"], E["DictConfig"]
     mt, scale, ms = cfg["mt"], cfg["scale"], cfg["max_stride"]
+    uio = bool(cfg.get("uio", True))
     head = DC({"sigma": cfg["cm"][0], "output_stride": cfg["cm"][1], "anchor_part": cfg["anchor"]})
     pafs = DC({"sigma": cfg["paf"][0], "output_stride": cfg["paf"][1]})
     probe = build_labels(spec)
@@ -220,8 +255,11 @@ def run_frameworks(spec, cfg, tmp):
     max_inst = prov.get_max_instances(probe)
     out, counts = {}, {}
     for fw in ("mem", "np"):
+        # `np_dir`: a chunk directory that may already hold another dataset's files; `np_existing`:
+        # build the np dataset with use_existing_chunks=True (it then only reads that directory)
         kw = dict(max_stride=ms, scale=scale, apply_aug=False, max_hw=max_hw, np_chunks=(fw == "np"),
-                  np_chunks_path=f"{tmp}/{fw}")
+                  np_chunks_path=(np_dir if (fw == "np" and np_dir) else f"{tmp}/{fw}"),
+                  use_existing_chunks=(fw == "np" and np_existing))
         lb = build_labels(spec)
         if mt == "single":
             ds = cd.SingleInstanceDataset(lb, data_config(cfg), head, **kw)
@@ -242,17 +280,17 @@ def run_frameworks(spec, cfg, tmp):
     def chunk(x):
         if mt == "single":
             return [gc.single_instance_data_chunks(x, data_config=dc, max_hw=max_hw,
-                                                   user_instances_only=True, scale=scale)]
+                                                   user_instances_only=uio, scale=scale)]
         if mt == "bottomup":
             return [gc.bottomup_data_chunks(x, data_config=dc, max_instances=max_inst, max_hw=max_hw,
-                                            user_instances_only=True, scale=scale)]
+                                            user_instances_only=uio, scale=scale)]
         if mt == "centroid":
             return [gc.centroid_data_chunks(x, data_config=dc, max_instances=max_inst,
                                             anchor_ind=cfg["anchor"], max_hw=max_hw,
-                                            user_instances_only=True, scale=scale)]
+                                            user_instances_only=uio, scale=scale)]
         return list(gc.centered_instance_data_chunks(x, data_config=dc, max_instances=max_inst,
                                                      crop_size=tuple(cfg["crop"]), anchor_ind=cfg["anchor"],
-                                                     max_hw=max_hw, user_instances_only=True, scale=scale))
+                                                     max_hw=max_hw, user_instances_only=uio, scale=scale))
 
     for lf in lb:   # the inputs `get_bin_files.py` hands to `ld.optimize`: every labelled frame
         r = call(chunk, (lf, lb.videos.index(lf.video)))
@@ -593,6 +631,22 @@ def gen_case(rng, mt=None, scale=None, cfg_override=False, extra=None):
                 insts.append(p)
             if mt != "single" and rng.random() < 0.2:
                 insts.insert(rng.randrange(len(insts) + 1), [None] * n_nodes)   # an empty instance
+            # predicted instances next to the user instances: before, between, after, or alone
+            mix = rng.choice(["none", "none", "first", "between", "last", "first+last", "only"])
+            def pred():
+                q = gen_points(rng, sizes[vi][0], sizes[vi][1], n_nodes, rng.choice([0.0, 0.3]))
+                if all(x is None for x in q):
+                    q[0] = (20.5, 18.25)
+                return {"pred": True, "pts": q}
+            if mix == "only":
+                insts = [{"pred": True, "pts": ipts(i)} for i in insts if any(q is not None for q in ipts(i))]
+            else:
+                if "first" in mix:
+                    insts.insert(0, pred())
+                if mix == "between":
+                    insts.insert(max(1, len(insts) // 2), pred())
+                if "last" in mix:
+                    insts.append(pred())
             frames.append({"video": vi, "t": t, "insts": insts})
     if extra == "single_extra":
         fr = rng.choice(frames)
@@ -614,7 +668,7 @@ def gen_case(rng, mt=None, scale=None, cfg_override=False, extra=None):
            "anchor": rng.choice([None, 0, 0, 1]),
            "cm": (rng.choice([1.5, 2.5, 1.0]), rng.choice([1, 2, 2, 4])),
            "paf": (rng.choice([4.0, 2.0, 1.5]), rng.choice([2, 4, 4, 8])),
-           "cfg_max": None}
+           "cfg_max": None, "uio": rng.random() < 0.65}
     if cfg_override:
         H, W = max(s[0] for s in sizes), max(s[1] for s in sizes)
         cfg["cfg_max"] = rng.choice([(H + 24, W + 40), (H, W + 16), (H * 2, W * 2), (H + 8, W),
@@ -634,22 +688,18 @@ def model_line(fw, spec, cfg, fr, k, max_hw, max_inst, alias):
     cm_h, cm_w = cfg["cfg_max"] if cfg["cfg_max"] else (None, None)
     toks = ["sample", fw, cfg["mt"], "1" if cfg["is_rgb"] else "0", str(max_hw[0]), str(max_hw[1]),
             o(cm_h), o(cm_w), rat(float(cfg["scale"])), str(cfg["max_stride"]), str(cfg["crop"][0]),
-            str(cfg["crop"][1]), o(cfg["anchor"]), str(max_inst), "1" if alias else "0",
+            str(cfg["crop"][1]), o(cfg["anchor"]), str(max_inst), "1" if alias else "0", "1" if cfg.get("uio", True) else "0",
             rat(float(cfg["cm"][0])), str(cfg["cm"][1]), rat(float(cfg["paf"][0])), str(cfg["paf"][1]),
             str(len(spec["edges"]))] + [f"{u} {w}" for u, w in spec["edges"]]
-    toks += [str(v["h"]), str(v["w"]), str(v["c"]), str(k), str(len(fr["insts"]))]
-    for pts in fr["insts"]:
-        toks.append(str(len(pts)))
-        for p in pts:
-            toks.append("nan nan" if p is None else f"{rat(float(p[0]))} {rat(float(p[1]))}")
+    toks += [str(v["h"]), str(v["w"]), str(v["c"]), str(k), labelled_line(fr)]
     return " ".join(toks)
 
 
-def sample_index(spec, mt):
+def sample_index(spec, mt, uio=True):
     """(frame, k) for every dataset index, in the order all three frameworks enumerate them."""
     out = []
     for fr in spec["frames"]:
-        ne = sum(1 for p in fr["insts"] if any(q is not None for q in p))
+        ne = sum(1 for p in enum_insts(fr, uio) if any(q is not None for q in p))
         if mt == "centered":
             out += [(fr, k) for k in range(ne)]
         elif ne:
@@ -686,24 +736,26 @@ def eff_is_exact(spec, cfg, max_hw):
 
 
 def signatures(spec, cfg, max_hw, max_inst, frame=None):
+    uio = bool(cfg.get("uio", True))
     """Structural predicates of a failing case, matched against the `known` entries."""
     sig = []
     if cfg["cfg_max"] is not None and target_hw(cfg, max_hw) != tuple(max_hw):
         sig.append("cfg_max_hw_differs_from_labels_max_hw")          # F-C18a (fixed: suppresses nothing)
     if cfg["mt"] == "single" and max_inst != 1:
         sig.append("single_labels_max_instances_ne_1")                # F-C18b (fixed: suppresses nothing)
-    if frame is not None and all(all(q is None for q in p) for p in frame["insts"]):
+    if frame is not None and all(all(q is None for q in p) for p in enum_insts(frame, uio)):
         sig.append("frame_with_only_empty_instances")                 # F-C18c
     return sig
 
 
 # ------------------------------------------------------------------ one labels/config case, end to end
-def run_case(chk, spec, cfg, alias, tmp, tag, do_model=True):
+def run_case(chk, spec, cfg, alias, tmp, tag, do_model=True, np_dir=None, np_existing=False, prior=None):
     """Runs frameworks + model for every sample of the case.  Returns (n_samples, oracle failures)."""
     torch = E["torch"]
+    LAST_CASE.update(spec=spec, cfg=cfg)
     sub = tempfile.mkdtemp(dir=tmp)
     try:
-        fwout, max_hw, max_inst, counts = run_frameworks(spec, cfg, sub)
+        fwout, max_hw, max_inst, counts = run_frameworks(spec, cfg, sub, np_dir=np_dir, np_existing=np_existing)
     finally:
         shutil.rmtree(sub, ignore_errors=True)
     if knife_edge(spec, cfg, max_hw):
@@ -711,11 +763,18 @@ def run_case(chk, spec, cfg, alias, tmp, tag, do_model=True):
         return 0, []
     mt = cfg["mt"]
     case = {"spec": spec, "cfg": cfg}
+    if np_dir:
+        case["np_chunk_directory"] = ("use_existing_chunks=True on the directory the same dataset filled" if np_existing
+                                      else "directory may hold an earlier dataset's sample_*.npz")
+        case["np_existing"] = np_existing
+        if prior:
+            case["prior"] = prior      # the dataset that filled the directory before (replayed first)
     all_fails = []
     # ---- how many samples each labelled frame gives (model: sampleCount; property: the same everywhere)
     # one driver process per case: the `count` lines and the `sample` lines travel together
-    idx = sample_index(spec, mt)
-    clines = [f"count {fw} {mt} {insts_line(fr['insts'])}" for fr in spec["frames"] for fw in FWS]
+    uio = bool(cfg.get("uio", True))
+    idx = sample_index(spec, mt, uio)
+    clines = [f"count {fw} {mt} {int(uio)} {labelled_line(fr)}" for fr in spec["frames"] for fw in FWS]
     lines, keys = [], []
     for i, (fr, k) in enumerate(idx):
         for fw in FWS:
@@ -771,7 +830,7 @@ def run_case(chk, spec, cfg, alias, tmp, tag, do_model=True):
                 chk.disagree(f"{fw} {mt}: fetch #{here['fetch_number']} of an index returns what fetch #1 returned",
                              here, describe_change(first_cs[i][fw], cs[fw]), "identical")
         raw = frame_image(spec, fr)
-        has_empty = any(all(q is None for q in p) for p in fr["insts"])
+        has_empty = any(all(q is None for q in p) for p in enum_insts(fr, uio))
         bad = False
         for fw in FWS:
             if (i, fw) not in models:
@@ -804,8 +863,12 @@ def run_case(chk, spec, cfg, alias, tmp, tag, do_model=True):
                      + "): " + "; ".join(fails[:3]), here, fails[:6], signatures(spec, cfg, max_hw, max_inst))
         if refetch:
             continue
-        nz = sum(1 for p in fr["insts"] for q in p if q is not None)
-        chk.case((tag, mt, cfg["scale"], cfg["max_stride"], cfg["is_rgb"], json.dumps(fr["insts"]), k) if nz else None,
+        nz = sum(1 for p in enum_insts(fr, uio) for q in p if q is not None)
+        n_pred = sum(1 for i in fr["insts"] if ipred(i))
+        pred_tag = ("none" if not n_pred else "only" if n_pred == len(fr["insts"]) else
+                    "first" if ipred(fr["insts"][0]) else "last" if ipred(fr["insts"][-1]) else "between")
+        chk.tag(f"predicted:{pred_tag}/uio:{uio}")
+        chk.case((tag, mt, cfg["scale"], cfg["max_stride"], cfg["is_rgb"], uio, json.dumps(fr["insts"]), k) if nz else None,
                  {"mt": mt, "cfg": cfg, "frame": fr, "k": k,
                   "model_mem": models.get((i, "mem"), "")[:300]},
                  tags=[f"mt:{mt}", f"scale:{cfg['scale']}", "covered" if in_region else "outside_statement",
@@ -1225,6 +1288,23 @@ def main(chk: Check):
                             "F-C18c_all_empty_frame")
             n_ex += k
         chk.extra["excluded_region_cases"] = n_ex
+        # (3b) a re-used chunk directory (`np_chunks_rewrite_independent_of_directory_state`): dataset A
+        #      fills a directory; use_existing_chunks=True on it must serve A; a DIFFERENT dataset B
+        #      (other labels / scale / config) built with use_existing_chunks=False on the same directory
+        #      must equal the in-memory dataset B and the model's np samples of B — never A's stale files
+        for mt in MTS:
+            for _ in range(chk.n(2, 6)):
+                d = tempfile.mkdtemp(dir=tmp, prefix="reuse_")
+                sa = 1.0 if mt == "centered" else rng.choice([1.0, 0.5, 1.5])
+                sb = 1.0 if mt == "centered" else rng.choice([1.0, 0.75, 2.0])
+                run_case(chk, *gen_case(rng, mt=mt, scale=sa), alias, tmp, "dir_reuse:A_writes", np_dir=d)
+                specA, cfgA = LAST_CASE["spec"], LAST_CASE["cfg"]
+                prior = {"spec": specA, "cfg": cfgA}
+                run_case(chk, specA, cfgA, alias, tmp, "dir_reuse:A_existing_chunks", np_dir=d, np_existing=True,
+                         prior=prior)
+                run_case(chk, *gen_case(rng, mt=mt, scale=sb, cfg_override=rng.random() < 0.5), alias, tmp,
+                         "dir_reuse:B_rewrites", np_dir=d, prior=prior)
+                shutil.rmtree(d, ignore_errors=True)
         # (4) DataPipe blocks
         check_blocks(chk, alias, chk.n(10, 60))
     finally:
@@ -1238,7 +1318,13 @@ def replay(chk: Check, payload):
     alias = probe_alias()
     tmp = tempfile.mkdtemp(prefix="verif_c18_")
     try:
-        if "spec" in case:
+        if "spec" in case and case.get("prior"):
+            d = tempfile.mkdtemp(dir=tmp, prefix="reuse_")
+            run_case(chk, case["prior"]["spec"], case["prior"]["cfg"], alias, tmp, "replay:prior dataset fills the directory", np_dir=d)
+            n, fails = run_case(chk, case["spec"], case["cfg"], alias, tmp, "replay", np_dir=d,
+                                np_existing=bool(case.get("np_existing")), prior=case["prior"])
+            print(f"replay (re-used chunk directory): {n} samples, oracle failures: {fails[:4]}")
+        elif "spec" in case:
             n, fails = run_case(chk, case["spec"], case["cfg"], alias, tmp, "replay")
             print(f"replay: {n} samples, oracle failures: {fails[:4]}")
         else:
